@@ -305,10 +305,17 @@ Definition hscript_of (sh : shape) (h : (hm * list (option (list N) + status)) +
            end
   end.
 
+(* the UNIMPLEMENTED status of from_encoding_header names the offending value after this
+   prefix: cut there (as Model/Negotiate.v does), otherwise as Model/Status.v *)
+Definition canon_msg2 (m : list N) : list N :=
+  if is_prefix Negotiate.unsupported_msg_prefix m then Negotiate.unsupported_msg_prefix else canon_msg m.
+Definition status_obs2 (st : status) : tr :=
+  Nd [Nn (st_code st); Bs (canon_msg2 (st_msg st)); Bs (st_details st); hm_canon (st_md st)].
+
 Definition end_obs (e : stream_end) : tr :=
   match e with
   | EndOk => Nd [Nn 0]
-  | EndErr st => Nd [Nn 1; status_obs st]
+  | EndErr st => Nd [Nn 1; status_obs2 st]
   | EndHang => Nd [Nn 8]
   | EndPanic => Nd [Nn 9]
   end.
@@ -322,7 +329,7 @@ Definition seen_obs (s : seen (list N)) : tr :=
   end.
 Definition result_obs (r : client_result (list N)) : tr :=
   match r with
-  | CRErr st => Nd [Nn 0; status_obs st]
+  | CRErr st => Nd [Nn 0; status_obs2 st]
   | CRUnary md m => Nd [Nn 1; hm_canon md; Bs m]
   | CRStream md ms e => Nd [Nn 2; hm_canon md; Nd (map Bs ms); end_obs e]
   | CRPanic => Nd [Nn 9]
@@ -348,4 +355,43 @@ Definition obs_call (shn : N) (md : hm) (req : list (option (list N) + status)) 
       Nd [result_obs (client_call (list N) deser_id no_decompress default_side sh (wr_http w)
                         (wr_headers w) pscript f);
           seen_obs s]
+  end.
+
+(* the same call over a real HTTP/2 connection (kinds h2): the schedule is not controlled, so
+   only the final observable is compared, and hyper adds headers of its own (date, ...), so
+   metadata maps are compared on the names [keys] the case itself uses *)
+Definition restrict (keys : list hname) (m : hm) : hm :=
+  filter (fun e => existsb (bytes_eqb (fst e)) keys) m.
+Definition restrict_status (keys : list hname) (st : status) : status :=
+  mkStatus (st_code st) (st_msg st) (st_details st) (restrict keys (st_md st)).
+Definition restrict_end (keys : list hname) (e : stream_end) : stream_end :=
+  match e with EndErr st => EndErr (restrict_status keys st) | _ => e end.
+Definition restrict_result (keys : list hname) (r : client_result (list N)) : client_result (list N) :=
+  match r with
+  | CRErr st => CRErr (restrict_status keys st)
+  | CRUnary md m => CRUnary (restrict keys md) m
+  | CRStream md ms e => CRStream (restrict keys md) ms (restrict_end keys e)
+  | _ => r
+  end.
+Definition restrict_seen (keys : list hname) (s : seen (list N)) : seen (list N) :=
+  match s with
+  | SeenUnary md m => SeenUnary (restrict keys md) m
+  | SeenStream md ms e => SeenStream (restrict keys md) ms (restrict_end keys e)
+  | _ => s
+  end.
+
+Definition obs_call_h2 (keys : list hname) (shn : N) (md : hm) (req : list (option (list N) + status))
+           (h : (hm * list (option (list N) + status)) + status) (fuel : N) : tr :=
+  let sh := shape_of shn in
+  let f := N.to_nat fuel in
+  let qframes := request_frames (list N) ser_id no_compress default_side (map sev_of req) in
+  let '(s, resp) := server_call (list N) ser_id deser_id no_compress no_decompress default_side sh
+                      (request_headers md) (transport [] [] qframes) (hscript_of sh h) f in
+  match resp with
+  | None => Nd [Nd [Nn 9]; seen_obs (restrict_seen keys s)]
+  | Some w =>
+      Nd [result_obs (restrict_result keys
+                        (client_call (list N) deser_id no_decompress default_side sh (wr_http w)
+                           (wr_headers w) (transport [] [] (wr_frames w)) f));
+          seen_obs (restrict_seen keys s)]
   end.
